@@ -76,6 +76,8 @@ type MemStore struct {
 	// stream reporting a deferred transport error); 0 = never.
 	CloseErrEvery int64
 	closeCount    atomic.Int64
+	// ShortReads: every Read returns at most this many bytes (0 = as many as asked): io.Reader allows it
+	ShortReads int
 }
 
 func (s *MemStore) refused(ctx context.Context, op, file string) bool {
@@ -320,6 +322,9 @@ func (r *memReader) Read(p []byte) (int, error) {
 		time.Sleep(d)
 	}
 	off, _ := r.r.Seek(0, io.SeekCurrent)
+	if k := r.s.ShortReads; k > 0 && len(p) > k {
+		p = p[:k]
+	}
 	n, err := r.r.Read(p)
 	r.s.mu.Lock()
 	r.s.extents = append(r.s.extents, ReadExtent{File: r.name, Off: int(off), Len: n, Handle: r.id})
